@@ -26,6 +26,9 @@ def model_check(rep, tier):
 
     with ThreadPoolExecutor(len(cfgs)) as ex:
         results = list(ex.map(one, cfgs))
+    # negative control of the model: a destructor that raises the stop flag without the queue's mutex loses a wake-up (one worker)
+    common.negative_control(rep, "ThreadPool", "ThreadPool_neg_stop_unlocked.cfg", SPECDIR,
+                            "stop flag raised without the mutex: the worker sleeps forever, ~pool_t never returns (NoStuck)")
     for cfg, r in results:
         rep.add_tlc(r, "ThreadPool.tla/" + cfg)
         if not r.ok:
@@ -35,7 +38,7 @@ def model_check(rep, tier):
             else:
                 raise CheckError("TLC failed on %s:\n%s" % (cfg, r.out[-3000:]))
         cov = r.coverage()
-        dead = [a for a, (taken, _) in cov.items() if taken == 0 and a not in ("CEnqStart", "CEnqLock", "CEnqPush", "CNotifyOne")]
+        dead = [a for a, (taken, _) in cov.items() if taken == 0 and a not in ("CEnqStart", "CEnqLock", "CEnqPush", "CNotifyOne", "OStopUnlocked", "WCheckEval", "WSleep")]  # the last three: negative-control actions only
         if cov and dead:
             rep.add(vacuous_actions=dead)
             raise CheckError("actions never taken in %s: %s" % (cfg, dead))
